@@ -30,6 +30,9 @@ ASSERTS = [
     ("lincombbool", "LinCombBool({i})"), ("lincombbool_sum", "LinCombBool({b} + {b})"),
     ("bool_and_int", "{b} & {i}"), ("bool_eq_int", "{b} == {i}"), ("bool_xor_int", "{b} ^ {i}"), ("bool_or_int", "{b} | {i}"),
     ("int_and_bool", "{i} & {b}"), ("bool_lt_int", "{b} < {i}"), ("bool_assert_eq_int", "{b}.assert_eq({i})"),
+    ("bool_assert_ne_int", "{b}.assert_ne({i})"), ("bool_assert_lt_int", "{b}.assert_lt({i})"), ("bool_assert_le_int", "{b}.assert_le({i})"),
+    ("bool_assert_gt_int", "{b}.assert_gt({i})"), ("bool_assert_ge_int", "{b}.assert_ge({i})"), ("bool_assert_le_K", "{b}.assert_le({K})"),
+    ("bool_assert_ge_K", "{b}.assert_ge({K})"),
     ("bassert_eq", "{b}.assert_eq({b})"), ("bassert_ne", "{b}.assert_ne({b})"), ("bassert_eq_c", "{b}.assert_eq({B})"),
     ("bassert_lt", "{b}.assert_lt({b})"), ("bassert_ge", "{b}.assert_ge({b})"),
     ("bassert_zero", "{b}.assert_zero()"), ("bassert_nonzero", "{b}.assert_nonzero()"),
